@@ -44,8 +44,10 @@ FAULT_KINDS = ("drop-send", "dup-send", "retag-send", "redirect-send",
 class RankCtx:
     def __init__(self, rank, size, fault=None, staple="chain"):
         self.rank, self.size = rank, size
-        self.fault = fault if fault is not None and fault.rank == rank \
-            else None
+        faults = [] if fault is None else (
+            list(fault) if isinstance(fault, (list, tuple)) else [fault])
+        self.faults = [f for f in faults if f.rank == rank]
+        self.fault = None
         self.nsend = self.nrecv = 0
         self.sends: list[tuple] = []      # (data, dest, tag)
         self.recvs: list[tuple] = []      # (src, tag)
@@ -68,8 +70,9 @@ class RankCtx:
     def recv(self, src, tag):
         i = self.nrecv
         self.nrecv += 1
-        f = self.fault
-        if f is not None and f.index == i and f.kind.endswith("-recv"):
+        f = next((g for g in self.faults
+                  if g.index == i and g.kind.endswith("-recv")), None)
+        if f is not None:
             if f.kind == "drop-recv":
                 return pt.zeros(SHAPE, np.float64) + self.x
             if f.kind == "retag-recv":
@@ -94,8 +97,9 @@ class RankCtx:
     def send(self, data, dest, tag):
         i = self.nsend
         self.nsend += 1
-        f = self.fault
-        if f is not None and f.index == i and f.kind.endswith("-send"):
+        f = next((g for g in self.faults
+                  if g.index == i and g.kind.endswith("-send")), None)
+        if f is not None:
             if f.kind == "drop-send":
                 return
             if f.kind == "retag-send":
@@ -106,7 +110,10 @@ class RankCtx:
                     raise NotApplicable("no third rank to redirect to")
                 dest = o
             if f.kind == "dup-send":
-                self.sends.append((data, dest, tag))
+                # a second send for the same (source, destination, tag) with
+                # a payload of its own (an *equal* send node is the same node
+                # once the DAG is de-duplicated)
+                self.sends.append((data + 0, dest, tag))
         self.sends.append((data, dest, tag))
 
     def finish(self, outputs):
@@ -333,6 +340,28 @@ def build_rank(prog, rank, size, fault=None, staple="chain"):
     outs = (PROGRAMS.get(prog) or EXTRA_VALID_PROGRAMS.get(prog)
             or PROGRAMS_RANDOM.get(prog) or INVALID_PROGRAMS[prog])(ctx)
     return ctx, ctx.finish(outs)
+
+
+def live_ops(outputs):
+    """(sends, recvs) actually present in the DAG the partitioner works on
+    (dead code -- e.g. a receive nobody uses -- is eliminated first)."""
+    from pytato.distributed.nodes import (DistributedRecv,
+                                          DistributedSendRefHolder)
+    from pytato.transform import CachedWalkMapper
+    from pytato.transform.dead_code_elimination import eliminate_dead_code
+    sends, recvs = [], []
+
+    class W(CachedWalkMapper):
+        def get_cache_key(self, expr):
+            return id(expr)
+
+        def post_visit(self, expr):
+            if isinstance(expr, DistributedSendRefHolder):
+                sends.append((expr.send.dest_rank, expr.send.comm_tag))
+            elif isinstance(expr, DistributedRecv):
+                recvs.append((expr.src_rank, expr.comm_tag))
+    W()(eliminate_dead_code(outputs))
+    return sends, recvs
 
 
 def count_ops(prog, size):
